@@ -1,7 +1,8 @@
 #!/bin/bash
 # Determinism self-test of the simulator: many VERIF_SEED values, each executed in separately started
 # processes at --jobs 1 and --jobs 16 (and a third time at jobs 5); the DIGEST line (run count, ticks,
-# comparisons, order-independent digest of every output bit) must be identical. No files are written
+# comparisons, order-independent digest of every output bit), of the shipped-configuration pass and of the
+# checked pass, must be identical. No files are written
 # (VERIF_DRY). usage: selftest/determinism.sh [seeds=300] [scale=0.003]
 HERE=$(cd "$(dirname "$0")" && pwd); VERIF=$(dirname "$HERE")
 N=${1:-300}; SCALE=${2:-0.003}
@@ -12,7 +13,8 @@ one() { # prop seed
   a=$(VERIF_SEED=$2 VERIF_JOBS=1 "$BIN" $1 quick | grep ^DIGEST)
   b=$(VERIF_SEED=$2 VERIF_JOBS=16 "$BIN" $1 quick | grep ^DIGEST)
   c=$(VERIF_SEED=$2 VERIF_JOBS=5 "$BIN" $1 quick | grep ^DIGEST)
-  if [ -n "$a" ] && [ "$a" = "$b" ] && [ "$a" = "$c" ]; then echo "same $1 $2"; else echo "DIFF $1 $2 [$a] [$b] [$c]"; fi
+  # two lines each: DIGEST-SHIPPED (the pass in the shipped build configuration) and DIGEST (the checked pass)
+  if [ "$(echo "$a" | wc -l)" = 2 ] && [ "$a" = "$b" ] && [ "$a" = "$c" ]; then echo "same $1 $2"; else echo "DIFF $1 $2 [$a] [$b] [$c]"; fi
 }
 export -f one; export BIN
 mkdir -p "$HERE/results"
